@@ -1,6 +1,7 @@
 From Coq Require Import ZArith List String Bool.
 Import ListNotations.
-From TD Require Import Lib.Sexp Model.C17_Inverse Model.C17_Elem Model.C17_Ctx.
+From TD Require Import Lib.Sexp Model.C17_Inverse Model.C17_Elem Model.C17_Ctx Model.C17_Tree.
+From TD Require Import Model.C04_Tree Model.C04_Ops Model.C17_Keys.
 Open Scope string_scope.
 
 Definition dec_val (s : sexp) : option val :=
@@ -93,8 +94,86 @@ Definition enc_obj (o : tdobj) : sexp :=
   SL [enc_bool (locked o); enc_opt (fun rc => enc_cop (o_op rc)) (last_op o);
       enc_list (enc_opt (fun rc => enc_cop (o_op rc))) (queue o)].
 
+(* ---- trees (Model/C17_Tree.v): (leaf sid c) | (node (k tree) ...) ---- *)
+Fixpoint dec_ktree (fuel : nat) (s : sexp) : option ktree :=
+  match fuel with
+  | O => None
+  | S f =>
+      match s with
+      | SL [SA "leaf"; SZ sid; SZ c] => Some (KLeaf (Z.to_nat sid) c)
+      | SL (SA "node" :: l) =>
+          option_map KNode
+            ((fix go (l : list sexp) : option kents :=
+                match l with
+                | [] => Some []
+                | SL [SA k; t] :: r =>
+                    match dec_ktree f t, go r with Some t, Some r => Some ((k, t) :: r) | _, _ => None end
+                | _ => None
+                end) l)
+      | _ => None
+      end
+  end.
+
+Fixpoint enc_ktree (t : ktree) : sexp :=
+  match t with
+  | KLeaf s c => SL [SA "leaf"; SZ (Z.of_nat s); SZ c]
+  | KNode es => SL (SA "node" :: (fix go (es : kents) : list sexp :=
+                                    match es with [] => [] | (k, w) :: r => SL [SA k; enc_ktree w] :: go r end) es)
+  end.
+
+(* ---- key trees (Model/C17_Keys.v over C04's tree): (leaf z) | (node (k tree) ...) ---- *)
+Fixpoint dec_tree (fuel : nat) (s : sexp) : option tree :=
+  match fuel with
+  | O => None
+  | S f =>
+      match s with
+      | SL [SA "leaf"; SZ z] => Some (Leaf LT z)
+      | SL (SA "node" :: l) =>
+          option_map Node
+            ((fix go (l : list sexp) : option ents :=
+                match l with
+                | [] => Some []
+                | SL [SA k; t] :: r =>
+                    match dec_tree f t, go r with Some t, Some r => Some ((k, t) :: r) | _, _ => None end
+                | _ => None
+                end) l)
+      | _ => None
+      end
+  end.
+
+Definition enc_block (b : block_res) : sexp :=
+  match b with
+  | BOk r => SL [SA "ok"; enc_ktree (KNode r)]
+  | BForwardRaises => SA "fwd-raise"
+  | BExitRaises => SA "raise"
+  end.
+
 Definition dispatch (cmd : string) (args : list sexp) : option sexp :=
   match cmd, args with
+  | "splitjoin", [SA sep; p] =>
+      match dec_list dec_str p with
+      | Some p =>
+          let k := join sep p in
+          Some (SL [SA k; enc_bool (str_contains sep k); enc_list enc_str (split sep k); enc_list enc_str (py_key_path sep k);
+                    enc_bool (clean_path sep p); enc_bool (no_sep_inside sep p)])
+      | None => None
+      end
+  | "flatten_keys_block", [SA sep; lk; orig; sets] =>
+      match dec_bool lk, dec_tree 16 orig, dec_list (dec_pair dec_str (dec_tree 4)) sets with
+      | Some lk, Some (Node orig), Some sets => Some (enc_block (flatten_keys_block sep lk orig sets))
+      | _, _, _ => None
+      end
+  | "unflatten_keys_block", [SA sep; lk; orig; sets] =>
+      match dec_bool lk, dec_tree 16 orig, dec_list (dec_pair (dec_list dec_str) (dec_tree 4)) sets with
+      | Some lk, Some (Node orig), Some sets => Some (enc_block (unflatten_keys_block sep lk orig sets))
+      | _, _, _ => None
+      end
+  | "writeback_t", [lk; out; inv] =>
+      match dec_bool lk, dec_ktree 16 out, dec_ktree 16 inv with
+      | Some lk, Some (KNode out), Some (KNode inv) =>
+          Some (enc_opt (fun es => enc_ktree (KNode es)) (writeback_t lk out inv))
+      | _, _, _ => None
+      end
   | "writeback", [lk; out; inv] =>
       let dec_ent := dec_pair dec_str (dec_pair dec_nat dec_Z) in
       match dec_bool lk, dec_list dec_ent out, dec_list dec_ent inv with
